@@ -284,7 +284,7 @@ mem_replace_arr(const void *src, const size_t src_size, const size_t repl_count,
 			break; /* Should newer happen. */
 		// in founded
 		i = (size_t)(founded[first_idx] - src_cur_prev);
-		if (dst_max <= (dst_cur + (i + src_repl_counts[first_idx])))
+		if ((size_t)(dst_max - dst_cur) < (i + dst_repl_counts[first_idx]))
 			return (ENOBUFS);
 		memmove(dst_cur, src_cur_prev, i);
 		dst_cur += i;
@@ -304,6 +304,8 @@ mem_replace_arr(const void *src, const size_t src_size, const size_t repl_count,
 		}
 	} /* while */
 	src_cur = (src_buf + src_size);
+	if ((size_t)(dst_max - dst_cur) < (size_t)(src_cur - src_cur_prev))
+		return (ENOBUFS);
 	memmove(dst_cur, src_cur_prev, (size_t)(src_cur - src_cur_prev));
 	dst_cur += (src_cur - src_cur_prev);
 
